@@ -449,7 +449,11 @@ impl<'a> World<'a> {
                     } else {
                         1
                     };
-                    let opn = format!("OWrite {} {} {} {}", coq_str(args["path"].as_str().unwrap_or("")), mode, ws_common::coq_bytes(args["content"].as_str().unwrap_or("").as_bytes()), if tool_ok { 0 } else { 1 });
+                    // what std makes of the temporary file's path for this argument (the model applies with_extension to the
+                    // root-relative string)
+                    let tmp_abs = self.sbx.root.join(args["path"].as_str().unwrap_or("")).with_extension("tmp-UUID");
+                    let tmp_rel = tmp_abs.strip_prefix(&self.sbx.root).map(|p| p.to_string_lossy().to_string()).unwrap_or_else(|_| tmp_abs.to_string_lossy().to_string());
+                    let opn = format!("OWrite {} {} {} {} {}", coq_str(args["path"].as_str().unwrap_or("")), mode, ws_common::coq_bytes(args["content"].as_str().unwrap_or("").as_bytes()), if tool_ok { 0 } else { 1 }, coq_str(&tmp_rel));
                     self.push_op(run, opn, &after);
                 } else {
                     self.push_op(run, "OEdit".into(), &after);
@@ -973,7 +977,7 @@ fn main() {
     let verif_root = a.extra.get("verif").cloned().unwrap_or_else(|| env!("CARGO_MANIFEST_DIR").to_string() + "/..");
     let mut res = RunResult::new("C14", &a);
     res.rule = "cases = (initial workspace, history, process cwd): 3-10 operations drawn from checkpoint create (Workspace API / ToolRunner + real hook; 1-4 paths: existing, missing, nested, './', '//', '/./', trailing '/', absolute inside the root, directories, the root, '..' and outside paths), harness edits (write, delete, mkdir, file replaced by a directory and back, rmtree), write (atomic / plain / append / append without create) and apply_patch (add, update, move, delete) through ToolRunner::run with auto-checkpoints - path arguments and patch headers decorated (leading / trailing blanks incl. unicode blanks and newlines, './', '//', '/./', trailing '/', backslashes, ...), each call followed (3 of 4) by a rewind to its own auto checkpoint judged by effect (whole tree before the call = tree after the rewind) - and rewinds to any earlier checkpoint in any order; stored copies changed / appended to through the write tool or removed (the store lies inside the workspace); workspaces hold siblings of the targets (<stem>.tmp, <name>.tmp, <name>~, .<name>.swp, <name>.tmp-x, <name>.bak, ...); a systematic block runs every single decoration x target x tool; cwd in {root, sibling, parent}; non-trivial = at least one successful create and one rewind".into();
-    let n = if a.thorough() { 8000 } else { 350 };
+    let n = if a.thorough() { 8000 } else { 400 };
     let mut r = Rng::new(a.seed);
     let mut jobs: Vec<Value> = if let Some(rp) = &a.replay {
         let j: Value = serde_json::from_str(&std::fs::read_to_string(rp).unwrap()).unwrap();
@@ -982,7 +986,7 @@ fn main() {
         corpus(&std::path::Path::new(&verif_root).join("corpus/C14"))
     };
     if a.replay.is_none() {
-        jobs.extend(systematic(a.seed, if a.thorough() { 0 } else { 10 }));
+        jobs.extend(systematic(a.seed, if a.thorough() { 0 } else { 12 }));
         for _ in 0..n {
             jobs.push(json!({"seed": r.next(), "cwd": r.below(3), "n_ops": r.range(3, 10)}));
         }
